@@ -2,3 +2,5 @@ import PMH.Model.Basic
 import PMH.Model.Scalar
 import PMH.Model.MaxTracker
 import PMH.Props.C15
+import PMH.Model.InvHashGen
+import PMH.Props.C19
